@@ -62,7 +62,10 @@ type Ev struct {
 	Perm     int    `json:"perm,omitempty"`
 	Salt     int64  `json:"salt,omitempty"`
 	PFS      bool   `json:"pfs,omitempty"` // the connection runs with PFS (ghost for the model)
-	DC       int    `json:"dc,omitempty"`  // migrate target
+	// MigDuring > 0: a Migrate(MigDuring) of another goroutine lands inside this notification,
+	// between onSession's store and saveSession's write (forced through Storage.LoadSession)
+	MigDuring int `json:"mig_during,omitempty"`
+	DC        int `json:"dc,omitempty"` // migrate target
 }
 type Hist struct {
 	InitDC int  `json:"init_dc"`
@@ -75,6 +78,28 @@ type z3 struct {
 }
 
 func (z z3) coq() string { return hx.Tuple(hx.Z(int64(z.DC)), hx.Z(int64(z.Key)), hx.Z(z.Salt)) }
+
+// hookStorage lets the harness run code inside LoadSession: saveSession loads the stored
+// session before it writes, so an armed hook runs between onSession's store and the write --
+// the place where a concurrent Migrate of another goroutine can land.
+type hookStorage struct {
+	*session.StorageMemory
+	onLoad func()
+}
+
+func (h *hookStorage) LoadSession(ctx context.Context) ([]byte, error) {
+	if f := h.onLoad; f != nil {
+		h.onLoad = nil
+		f()
+	}
+	return h.StorageMemory.LoadSession(ctx)
+}
+
+func newClientStorage(dc int, st session.Storage) *telegram.Client {
+	c := telegram.NewClient(1, "hash", telegram.Options{SessionStorage: st, DC: dc, NoUpdates: true})
+	c.VerifSetContext(context.Background())
+	return c
+}
 
 func newClient(dc int, mem *session.StorageMemory) *telegram.Client {
 	c := telegram.NewClient(1, "hash", telegram.Options{SessionStorage: mem, DC: dc, NoUpdates: true})
@@ -98,7 +123,8 @@ func sessZ(s pool.Session) z3 {
 func runHist(c *hx.Ctx, kind string, h Hist) {
 	c.Obs.Evaluations++
 	mem := &session.StorageMemory{}
-	cl := newClient(h.InitDC, mem)
+	hs := &hookStorage{StorageMemory: mem}
+	cl := newClientStorage(h.InitDC, hs)
 	init := cl.VerifPrimarySession().DC
 	truePrimary := init
 	type rec struct {
@@ -113,6 +139,7 @@ func runHist(c *hx.Ctx, kind string, h Hist) {
 	var viols []viol
 	add := func(sig, desc string) { viols = append(viols, viol{sig, desc}) }
 	nSaves, nIgnored := 0, 0
+	migFired := false
 	for i, e := range h.Evs {
 		beforeRaw, _ := mem.Bytes(nil)
 		beforeSess := cl.VerifPrimarySession()
@@ -122,11 +149,16 @@ func runHist(c *hx.Ctx, kind string, h Hist) {
 			case "notify":
 				cfg := tg.Config{ThisDC: e.Reported}
 				s := mtproto.Session{ID: int64(i + 1), Key: keys[e.Key], PermKey: keys[e.Perm], Salt: e.Salt}
+				migFired = false
+				if e.MigDuring > 0 && !e.CDN {
+					hs.onLoad = func() { migFired = true; cl.VerifMigrateSession(e.MigDuring) }
+				}
 				if e.CDN {
 					err = cl.VerifCDNHandler().OnSession(cfg, s)
 				} else {
 					err = cl.VerifHandler().OnSession(cfg, s)
 				}
+				hs.onLoad = nil
 			case "migrate":
 				cl.VerifMigrateSession(e.DC)
 			case "restore":
@@ -179,6 +211,10 @@ func runHist(c *hx.Ctx, kind string, h Hist) {
 				confirmed = append(confirmed, rec{e.ConnDC, want, e.Salt})
 				if truePrimary == 0 {
 					truePrimary = e.ConnDC
+				}
+				if migFired {
+					truePrimary = e.MigDuring // the other goroutine's migration took place
+					c.Count("notify:migrate-landed-inside")
 				}
 			} else {
 				nIgnored++
@@ -262,6 +298,10 @@ func runHist(c *hx.Ctx, kind string, h Hist) {
 			hd := "HRegular"
 			if e.CDN {
 				hd = "HCdn"
+			}
+			if e.MigDuring > 0 && !e.CDN {
+				evL[i] = fmt.Sprintf("ENotifyMig (mkNotif %s %s %s %d %d %s %s) %d", hd, hx.Z(int64(e.Reported)), hx.Z(int64(e.ConnDC)), e.Key, e.Perm, hx.Z(e.Salt), hx.B(e.PFS || e.Perm != 0), e.MigDuring)
+				break
 			}
 			evL[i] = fmt.Sprintf("ENotify (mkNotif %s %s %s %d %d %s %s)", hd, hx.Z(int64(e.Reported)), hx.Z(int64(e.ConnDC)), e.Key, e.Perm, hx.Z(e.Salt), hx.B(e.PFS || e.Perm != 0))
 		case "migrate":
@@ -480,6 +520,10 @@ func genHist(r *hx.Rand) Hist {
 			if !e.CDN && r.Chance(zeroRate, 10) {
 				e.Reported = 0
 			}
+			if !e.CDN && r.Chance(1, 6) {
+				e.MigDuring = conn[r.Intn(3)] // a migration of another goroutine lands inside this notification
+				primaryGuess = e.MigDuring
+			}
 			h.Evs = append(h.Evs, e)
 		case x < 16:
 			d := dcs[r.Intn(4)]
@@ -530,6 +574,10 @@ func main() {
 		{K: "migrate", DC: 4},
 		{K: "notify", ConnDC: 4, Reported: 4, Key: 3, Perm: 4, Salt: 44},
 		{K: "restore"}}})
+	runHist(c, "corpus", Hist{InitDC: 2, Evs: []Ev{
+		{K: "notify", ConnDC: 2, Reported: 2, Key: 1, Salt: 11, MigDuring: 4},
+		{K: "restore"},
+		{K: "notify", ConnDC: 4, Reported: 4, Key: 2, Salt: 22}}})
 	runHist(c, "corpus", Hist{InitDC: 0, Evs: []Ev{
 		{K: "notify", ConnDC: 2, Reported: 2, Key: 5, Salt: 5},
 		{K: "restore"},
@@ -545,6 +593,6 @@ func main() {
 			g++
 		}
 	}
-	c.Obs.Rule = "histories: 1..14 events over notifications (primary / other-DC / CDN connection, DCs {1,2,4}, reported ThisDC = connection DC or 0, keys from a pool of 4 + zero key + a key with a wrong id, PFS on/off), migrations to {0,1,2,4}, restores; non-trivial = distinct history with at least one save and at least one ignored non-primary notification. restore groups: one stored record x all 256+8 single-byte corruptions + length changes under the oracle (a subset of ~26 per group goes through the Gallina SHA-1); non-trivial = group with refusals"
+	c.Obs.Rule = "histories: 1..14 events over notifications (primary / other-DC / CDN connection, DCs {1,2,4}, reported ThisDC = connection DC or 0, keys from a pool of 4 + zero key + a key with a wrong id, PFS on/off), migrations to {0,1,2,4} -- also landing INSIDE a notification, between onSession's store and saveSession's write (forced through Storage.LoadSession) --, restores; non-trivial = distinct history with at least one save and at least one ignored non-primary notification. restore groups: one stored record x all 256+8 single-byte corruptions + length changes under the oracle (a subset of ~26 per group goes through the Gallina SHA-1); non-trivial = group with refusals"
 	c.Finish()
 }
